@@ -122,8 +122,12 @@ def run_path_c02(menu, path, is_leaf, inv_props=()):
                 vio.append(_vio("C02", "state-differs-from-timeline",
                                 f"after {ev[0]}: " + "; ".join(canon.diff(tl.current, obs)), menu, path))
                 dead = True
-            if inv_props and ev in (UNDO, REDO):
-                # evaluated on whatever state the undo / redo produced
+                if "C07" in inv_props and ev in (UNDO, REDO) and obs["seg"] != tl.current["seg"]:
+                    vio.append(_vio("C07", "array-not-restored-by-" + ev[0],
+                                    "; ".join(canon.diff({"seg": tl.current["seg"]}, {"seg": obs["seg"]})), menu, path, phase=ev[0]))
+            if inv_props and (ev in (UNDO, REDO) or menu.get("inv_every_call")):
+                # evaluated on whatever state the undo / redo (any call, for menus that the BFS
+                # stages do not cover) produced
                 bad = explore.run_invariants(tracks, cfg, inv_props)
                 for p, lst in bad.items():
                     for clause, detail in lst[:2]:
